@@ -35,13 +35,13 @@ func init() {
 		case 0:
 			admin, right, paths := c.At(1).Bool(), c.At(2).Str(), c.At(3).List()
 			auth.Reset(c16mem{})
-			if err := auth.Save(&auth.User{Name: "Pusher", Password: "p", Admin: admin, PushAccess: right, PullAccess: "/never"}, true); err != nil {
+			if err := auth.Save(&auth.User{Name: "pusher", Password: "p", Admin: admin, PushAccess: right, PullAccess: "/never"}, true); err != nil {
 				panic(err)
 			}
-			if err := auth.Save(&auth.User{Name: "Puller", Password: "p", Admin: admin, PushAccess: "/never", PullAccess: right}, true); err != nil {
+			if err := auth.Save(&auth.User{Name: "puller", Password: "p", Admin: admin, PushAccess: "/never", PullAccess: right}, true); err != nil {
 				panic(err)
 			}
-			up, ul := auth.Get("pusher"), auth.Get("PULLER")
+			up, ul := auth.Get("pusher"), auth.Get("puller")
 			if up == nil || ul == nil {
 				panic("saved user not found")
 			}
